@@ -17,6 +17,9 @@
 #ifndef VP_PAD
 #define VP_PAD 0      // number of isolated padding vertices placed BEFORE the active ones (sparse form only): large vertex ids => simplex indices beyond 32 bits
 #endif
+#ifndef VP_DLO
+#define VP_DLO 1      // smallest off-diagonal dissimilarity of the grid; 0 = zero entries between distinct points allowed (non-metric input)
+#endif
 #ifndef VP_PADGAP
 #define VP_PADGAP 1   // active point i is vertex VP_PAD + i*VP_PADGAP (isolated vertices in between): the active labels differ in their high bits
 #endif
@@ -45,11 +48,11 @@ extern "C" void harness() {
   float d[N][N]; int di[N][N];
   for (int i = 0; i < N; i++) for (int j = 0; j < i; j++) { 
 #ifdef VP_FORKD   /* one path per concrete dissimilarity matrix (enumerated by the solver) */
-    float x = (float)vp_double_grid_forked("d", 1.0, 1.0, VP_DMAX);
+    float x = (float)vp_double_grid_forked("d", (double)VP_DLO, 1.0, VP_DMAX - VP_DLO + 1);
 #else
-    float x = (float)vp_double_grid("d", 1.0, 1.0, VP_DMAX);
+    float x = (float)vp_double_grid("d", (double)VP_DLO, 1.0, VP_DMAX - VP_DLO + 1);
 #endif
-    int xi = 0; for (int q = 1; q <= VP_DMAX; q++) if (x == (float)q) xi = q; d[i][j] = d[j][i] = x; di[i][j] = di[j][i] = xi; }
+    int xi = 0; for (int q = VP_DLO; q <= VP_DMAX; q++) if (x == (float)q) xi = q; d[i][j] = d[j][i] = x; di[i][j] = di[j][i] = xi; }
   for (int i = 0; i < N; i++) { d[i][i] = 0; di[i][i] = 0; }
   const float inf = std::numeric_limits<float>::infinity();
 #if VP_PAD
